@@ -79,6 +79,16 @@ NonNeg(t, ctx) ==
     [] t.k \in {"add", "mul", "div"} -> NonNeg(t.l, ctx) /\ NonNeg(t.r, ctx)
     [] t.k = "pow" -> NonNeg(t.l, ctx)
     [] OTHER -> FALSE
+(* ---- type view: trees over integer operands through + - * ! neg abs (no division, no power) evaluate to an INTEGER whatever their
+        size - never to a float, an infinity or NaN ---- *)
+RECURSIVE IntTyped(_,_)
+IntTyped(t, ctx) ==
+  CASE t.k = "c" -> t.ty = "int"
+    [] t.k = "v" -> (LET bd == Binding(ctx, t.id) IN bd.st = "bound" /\ bd.ty = "int")
+    [] t.k \in {"neg", "abs"} -> IntTyped(t.c, ctx)
+    [] t.k = "fact" -> IntTyped(t.c, ctx) /\ NonNeg(t.c, ctx)
+    [] t.k \in {"add", "sub", "mul"} -> IntTyped(t.l, ctx) /\ IntTyped(t.r, ctx)
+    [] OTHER -> FALSE
 (* ---- forward error bound: the magnitude of the computation (every operation on absolute values) ---- *)
 RECURSIVE MagVal(_,_)
 MagVal(t, ctx) ==
